@@ -505,6 +505,10 @@ class AstToDjangoQVisitor(visitor.NodeVisitor):
         if isinstance(node, (Q, Exists)):
             return node
 
+        if isinstance(node, F):
+            # A bare (boolean) field: Django cannot filter on the expression itself.
+            return Q(**{node.name: True})
+
         if not DJANGO_LT_4:
             return Q(node)
 
